@@ -491,7 +491,7 @@ def main():
     # ---- search for a failing input: a model/code disagreement is not by itself a violation of
     # the property, so the property's oracle (Lean, specification side) is applied to the
     # implementation's own outcome on each disagreeing case ----
-    JUDGED = {"ser", "de", "rt", "graph", "schema", "c11", "skip"}
+    JUDGED = {"ser", "de", "rt", "graph", "schema", "c11", "skip", "ocfw"}
     todo = []
     for v in violations:
         cmd = v["case"].split(" ", 1)[0]
